@@ -175,6 +175,29 @@ static RunResult ot_execute(const Plan &plan)
 					if (j == sigma) { if (mpz_cmp(t, M[j])) res.violate("C18", "curious_selfcheck", "ot:curious_selfcheck", "harness reconstruction of the chosen message failed; " + ctx.str()); }
 					else if (!mpz_cmp(t, M[j]))
 						res.violate("C18", "other_message_opens", "ot:other_message_opens", "ciphertext " + std::to_string(j) + " (not chosen) decrypts to its message under the chooser's own secret; " + ctx.str());
+					else
+					{
+						// the chooser knows more than b: a, and hence the exponent c_j = ab - sigma + j of every query
+						// element.  With fresh sender coins (r_j, s_j) the key g^{c_j s_j + b r_j} is out of reach of
+						// every power of w_j = g^{a s_j + r_j}; if one of the coins is missing (r_j = 0 or s_j = 0) a
+						// power with an exponent built from a, b and c_j opens the message
+						Z cj, ainv, e;
+						mpz_mul(cj, a, b); mpz_sub_ui(cj, cj, (unsigned long)sigma); mpz_add_ui(cj, cj, (unsigned long)j); mpz_mod(cj, cj, G.q);
+						bool has_ainv = mpz_invert(ainv, a, G.q) != 0;
+						for (int cand = 0; cand < 4 && res.ok(); cand++)
+						{
+							if (cand == 0) mpz_set(e, a);
+							else if (cand == 1) mpz_set(e, cj);
+							else if (cand == 2) { if (!has_ainv) continue; mpz_mul(e, cj, ainv); mpz_mod(e, e, G.q); }
+							else { mpz_mul(e, a, b); mpz_mod(e, e, G.q); }
+							mpz_powm(t, w, e, G.p);
+							if (!mpz_invert(u, t, G.p)) continue;
+							mpz_mul(t, enc, u); mpz_mod(t, t, G.p);
+							if (!mpz_cmp(t, M[j]))
+								res.violate("C18", "other_message_opens", "ot:other_message_opens", "ciphertext " + std::to_string(j) + " (not chosen) decrypts to its message under w_j raised to an exponent the chooser knows (candidate " + std::to_string(cand) + " of a, c_j, c_j/a, ab); " + ctx.str());
+						}
+						res.cnt["probe.curious_chooser_exponent_candidates"] += 4;
+					}
 				}
 				// fresh blinding per message: all w_j pairwise distinct
 				for (size_t j = 0; j < N && res.ok(); j++)
